@@ -260,6 +260,11 @@ class Check:
                 verb, kv, body = r.cmd
                 # gate 1: same seed twice -> same class and same event-log hash
                 again = w.run(verb, kv, body)
+                if str(cls).startswith("HANG.") and again.status in ("OK", "DISCARD", "VIOL"):
+                    # the watchdog works on wall-clock time, the only thing here the simulator does not own: a run that ends when it is
+                    # repeated was slowed down by the machine, not stuck. Inconclusive (a genuine hang does not end the second time either)
+                    print("  note: %s seed=%s did not hang when repeated: inconclusive (machine load)" % (cls, kv.get("seed")))
+                    continue
                 if result_class(again) != cls or again.kv.get("hash") != r.kv.get("hash"):
                     self.machinery_error = "nondeterministic: seed %s class %s/%s hash %s/%s" % (kv.get("seed"), cls, result_class(again), r.kv.get("hash"), again.kv.get("hash"))
                     continue
